@@ -252,7 +252,8 @@ class Pool:
             e = comps[i]
             if getattr(e, 'ref', None) is None and hasattr(e, 'xsi_types'):
                 for t in e.xsi_types:
-                    xsi.add((i, idx.get(id(t), -1)))
+                    if id(t) in idx:          # (the proposed repair also stores (type, identity) pairs here)
+                        xsi.add((i, idx[id(t)]))
         bound = set()
         for i, c in enumerate(comps):
             if hasattr(c, 'selector') and hasattr(c, 'elements') and hasattr(c, 'fields'):
@@ -441,7 +442,9 @@ def run_history(ctx: Ctx, pi: int, pool: Pool, hist: list, drv: Optional[Driver]
             reqs.append({'sch': None, 'hist': [list(h) for h in model_hist], 'doc': doc_steps if op != 'encode' else []})
             meta.append((step_no, op, di, differs, got, want, obs, done))
         elif differs:
-            judge(ctx, case, step_no, got, want, None, None)
+            judge(ctx, case, step_no, got, want,
+                  py_predict(pool, model_hist, doc_steps if op != 'encode' else [], True),
+                  py_predict(pool, model_hist, doc_steps if op != 'encode' else [], False))
         model_hist.append(done)
     ctx.case(case, (uses_xsi and seen_bad) or bad_before_good, tag=tag)
     ctx.count('len:%d' % len(hist))
@@ -459,7 +462,8 @@ def run_history(ctx: Ctx, pi: int, pool: Pool, hist: list, drv: Optional[Driver]
                 ctx.mismatch('driver error ' + str(ans['err']), case, None, ans)
                 continue
             # residue after this call = trace[step_no + 1] of the final answer
-            tr = final['trace'][step_no + 1] if 'trace' in final else None
+            tkey = 'trace' if MODE['gated'] else 'trace_repaired'
+            tr = final[tkey][step_no + 1] if tkey in final else None
             if tr is not None:
                 mres = {'xsi': [tuple(x) for x in tr['xsi']],
                         'bound': sorted(set(tuple(x) for x in tr['bound']) - pool.base)}
@@ -468,6 +472,8 @@ def run_history(ctx: Ctx, pi: int, pool: Pool, hist: list, drv: Optional[Driver]
                     ctx.mismatch('residue after call %d (%s)' % (step_no, op), case, ires, mres)
             pm = ans['obs'] != ans['fresh']
             pr = ans['obs_repaired'] != ans['fresh_repaired']
+            if not MODE['gated']:
+                pm = pr                     # the tree runs the repaired algorithm: no listed deviation applies
             if pm:
                 ctx.count('model-predicts-difference')
             if differs:
@@ -499,6 +505,42 @@ def random_history(rng, pool: Pool, maxlen: int) -> list:
 
 
 WITNESS = (0, [['iter_errors', 0, 1], ['iter_errors', 2, 1]])     # C10-F1: A then B
+MODE = {'gated': True}      # which algorithm the tree under check runs (decided by replaying the witness)
+
+
+def detect_mode(pool: 'Pool') -> None:
+    shared = make_schema(pool.version, pool.xsd)
+    for op, di, st in WITNESS[1]:
+        got = perform(shared, op, pool.docs[di], st)
+    MODE['gated'] = got != pool.fresh(op, di, st)
+
+
+def py_predict(pool: 'Pool', hist: list, doc: list, gated: bool) -> bool:
+    """fallback when the Lean driver is unavailable: does the residue model predict a differing `collect`
+    observation for `doc` after `hist`?  (same algorithm as Model/History.lean `step`)"""
+    def run(res, steps, out):
+        xsi, bound = res
+        for s in steps:
+            if s[0] == 'x':
+                _, d, t, en = s
+                seen = (d, t) in xsi
+                if gated and seen:
+                    continue
+                if t in pool.complex:
+                    for c in en:
+                        for d2 in pool.widen.get((c, d, t), []):
+                            bound.add((c, d2))
+                xsi.add((d, t))
+            elif s[0] == 'c' and out is not None:
+                out.append((s[2], s[1]) in bound or (s[2], s[1]) in pool.base)
+    res = (set(), set())
+    for h in hist:
+        run(res, h, None)
+    a: list = []
+    b: list = []
+    run(res, doc, a)
+    run((set(), set()), doc, b)
+    return a != b
 
 
 def run(ctx: Ctx, driver_ok: bool) -> None:
@@ -510,6 +552,8 @@ def run(ctx: Ctx, driver_ok: bool) -> None:
         for p in sorted(cdir.glob('*.json')):
             c = json.loads(p.read_text())
             run_history(ctx, c['pool'], pools[c['pool']], c['history'], drv, 'corpus')
+    detect_mode(pools[WITNESS[0]])
+    ctx.extra['algorithm_under_check'] = 'gated widening (code as pinned)' if MODE['gated'] else 'repaired widening'
     run_history(ctx, WITNESS[0], pools[WITNESS[0]], WITNESS[1], drv, 'witness')
     # exhaustive pairs: every (invalid or aborted first call) x (second call), iter_errors / validate / decode
     for pi, pool in enumerate(pools):
@@ -534,6 +578,7 @@ def run(ctx: Ctx, driver_ok: bool) -> None:
 
 def search(ctx: Ctx) -> None:
     pools = [Pool(*p) for p in POOLS]
+    detect_mode(pools[WITNESS[0]])
     d = Driver('drv_c10')
     drv = d if d.path.exists() else None      # the listed finding is recognised through the model's prediction
     for i in range(ctx.pick(300, 2000)):
@@ -551,6 +596,7 @@ def replay(ctx: Ctx, obj: dict) -> int:
     load_findings(ctx)
     pools = [Pool(*p) for p in POOLS]
     pool = pools[case['pool']]
+    detect_mode(pools[WITNESS[0]])
     print('pool:', pool.name)
     for k, (op, di, st) in enumerate(case['history']):
         print(f'  call {k}: {op}({"stop at element %d, " % st if op == "stop" else ""}document {di}) {pool.docs[di][:160]}')
